@@ -62,7 +62,7 @@ UPDATE_FUNCTION(struct isal_mh_sha1_murmur3_x64_128_ctx *ctx, const void *buffer
 
         ctx->total_length += len;
         // No enough input data for mh_sha1 calculation
-        if (len + partial_block_len < ISAL_MH_SHA1_BLOCK_SIZE) {
+        if ((uint64_t) len + partial_block_len < ISAL_MH_SHA1_BLOCK_SIZE) {
                 memcpy(partial_block_buffer + partial_block_len, input_data, len);
                 return ISAL_MH_SHA1_MURMUR3_CTX_ERROR_NONE;
         }
